@@ -7,6 +7,10 @@ let () =
   let by_fn : (string, int) Hashtbl.t = Hashtbl.create 64 in
   let cur_case = ref "" and cur_cmd = ref "" in
   let limit = 40 in
+  (* in-kernel cross-check: every k-th eligible call is printed as a Coq term *)
+  let cases_out = (try Some (open_out (Sys.getenv "VERIF_CASES_OUT")) with Not_found -> None) in
+  let cases_every = (try int_of_string (Sys.getenv "VERIF_CASES_EVERY") with Not_found -> 50) in
+  let eligible = ref 0 and emitted = ref 0 in
   (try
      while true do
        let line = input_line stdin in
@@ -23,7 +27,14 @@ let () =
              Hashtbl.replace by_fn f (1 + (try Hashtbl.find by_fn f with Not_found -> 0));
              (match (try check_call f args with Bad m -> Some ("DRIVER-ERROR " ^ m) | Not_found -> Some "DRIVER-ERROR Not_found"
                                                | Failure m -> Some ("DRIVER-ERROR " ^ m)) with
-              | None -> ()
+              | None ->
+                  (* agreed with the extracted model: a sample goes to the in-kernel cross-check *)
+                  (match cases_out with
+                   | Some oc when !emitted < 400 ->
+                       (match coq_case f args with
+                        | Some t -> incr eligible; if !eligible mod cases_every = 0 then (incr emitted; Printf.fprintf oc "  (%s);\n" t)
+                        | None -> ())
+                   | _ -> ())
               | Some d ->
                   incr mism;
                   if !mism <= limit then
@@ -32,6 +43,7 @@ let () =
        end
      done
    with End_of_file -> ());
+  (match cases_out with Some oc -> close_out oc | None -> ());
   Monitors.finish ();
   let fns = Hashtbl.fold (fun k v acc -> (k, v) :: acc) by_fn [] |> List.sort compare in
   Printf.printf "SUMMARY cases=%d calls=%d mismatches=%d parse_errors=%d\n" !cases !calls !mism !errors;
